@@ -29,8 +29,14 @@ def valid_addr(a):
     return n <= 4
 
 
-def session(rng, njoin, nops):
-    ids = rng.sample(range(1, 256), njoin)
+ADDRESS_LIKE_IDS = [1, 2, 3, 4, 5, 9, 10, 11, 12, 13, 17, 18, 19, 20, 21]   # = 0o1..0o5, 0o11..0o15, 0o21..0o25
+
+
+def session(rng, njoin, nops, pool=None):
+    """`pool`: draw the node IDs (and the unknown IDs that are looked up) from this list instead of 1..255 - IDs that are
+    numerically equal to logical addresses the master hands out (seeded change C17-s5 confused the two in the table search;
+    with IDs from 1..255 whether a session contains such a collision depended on the seed)"""
+    ids = rng.sample(pool or range(1, 256), njoin)
     ops = ["new m master 0 0"]
     names = []
     for i, nid in enumerate(ids):
@@ -59,7 +65,7 @@ def session(rng, njoin, nops):
         elif x < 0.3:
             ops += [f"{n} renew {rng.choice([1500, 2500])}", f"m lookup_address {idof[n]}"]
         elif x < 0.45:
-            ops.append(f"{n} lookup_address {rng.choice([idof[o], idof[o], 0, rng.choice([i for i in range(1, 256) if i not in ids])])}")
+            ops.append(f"{n} lookup_address {rng.choice([idof[o], idof[o], 0, rng.choice([i for i in (pool or range(1, 256)) if i not in ids])])}")
         elif x < 0.6:
             ops.append(f"{n} lookup_node_id {rng.choice(['N', 0, 'A' + o, 'A' + o, 0o5555])}")   # A<name>: that node's current address
         elif x < 0.8:
@@ -224,6 +230,9 @@ class C17(PropCheck):
             nj = rng.choice([1, 2, 3, 4, 5, 6, 7, 9]) if tier == "quick" else rng.randint(1, 12)
             _, line = session(rng, nj, rng.randint(2, 8))
             cs.append((self._concrete(line), "mesh-join-lookup-send"))
+        for _ in range(8 if tier == "quick" else 60):
+            _, line = session(rng, rng.choice([2, 3, 4, 6]), rng.randint(3, 8), pool=ADDRESS_LIKE_IDS)
+            cs.append((self._concrete(line), "ids-equal-to-addresses"))
         for _ in range(30 if tier == "quick" else 150):
             cs.append((scripted_joiner(rng), "joiner-vs-scripted-responses"))
         for _ in range(6 if tier == "quick" else 20):
